@@ -41,7 +41,7 @@ def run_case(case):
     nx, ny, dx, dy = St["nx"], St["ny"], St["dx"], St["dy"]
     nz = len(St["z"])
     prec = "double" if rng.random() < 0.7 else "single"
-    tol = solve.tol(prec, St["G"])
+    tol = solve.tol(prec, St["G"], cr=St["cr"])
     levels, lkind = solve.pick_levels(rng, nz, str(rng.choice(["top", "scalar", "few", "with_top"])))
     nl = solve.nlev(levels)
     viol, sigs = [], []
